@@ -1,5 +1,7 @@
 """Driver configuration and manifest text for C01 (see DESIGN.md)."""
 
+RULE_ADD = " Later additions: fatal faults carry any protocol error code 1..96 three times out of four; a hook-gated 'parked-flush' template (the partition producer is held inside newHighWatermark while the partition is made leaderless and fresh messages are submitted, then a second retry cycle) in one case out of eight; a quarter of the asynchronous cases recycle the message objects handed back on Successes()/Errors()."
+
 CHECK = {'pkg': '.',
  'sim': True,
  'parts': [{'name': 'async', 'test': 'TestVF_C01', 'quick': {'shards': 8, 'checks': 200}, 'thorough': {'shards': 16, 'checks': 12000}}],
